@@ -121,13 +121,13 @@ var damages = []string{"truncate", "garbage", "empty", "otherpkg", "selfdecl", "
 
 // Profile tunes scenario generation per property.
 type Profile struct {
-	FaultPM, BadPM, RmPM, DamagePM, RepeatPM, StdoutPM, InterjectPM, EvolvePM int
-	Crash                                                                     bool
+	FaultPM, BadPM, RmPM, DamagePM, RepeatPM, StdoutPM, InterjectPM, EvolvePM, TemplatePM int
+	Crash                                                                                 bool
 }
 
 // Profiles by property.
 var Profiles = map[string]Profile{
-	"C15": {FaultPM: 80, BadPM: 40, RmPM: 500, DamagePM: 250, RepeatPM: 250, StdoutPM: 30, EvolvePM: 200, Crash: true},
+	"C15": {FaultPM: 80, BadPM: 40, RmPM: 500, DamagePM: 250, RepeatPM: 250, StdoutPM: 30, EvolvePM: 200, TemplatePM: 350, Crash: true},
 	"C17": {FaultPM: 450, BadPM: 250, RmPM: 250, DamagePM: 120, RepeatPM: 120, StdoutPM: 120, InterjectPM: 30, Crash: true},
 	"C18": {FaultPM: 300, BadPM: 250, RmPM: 300, DamagePM: 150, RepeatPM: 100, StdoutPM: 150, InterjectPM: 150, Crash: false},
 }
@@ -155,6 +155,30 @@ func GenScenario(tp *tape.Tape, seed uint64, pf Profile) *Scenario {
 	}
 	sc.IncompleteMod = tp.Chance(70, 1000)
 	sc.StartAliased = tp.Bool()
+	if pf.TemplatePM > 0 && tp.Chance(pf.TemplatePM, 1000) {
+		// a scripted regeneration history with random flags: generate in place,
+		// change something, regenerate with -rm (and once more without)
+		sc.IncompleteMod = false
+		sc.Place = Placements[[]int{0, 0, 7, 8, 9, 11}[tp.Int(6)]]
+		first := genRun(tp, Profile{}, sc.Place)
+		first.Rm = false
+		again := first
+		again.Rm = true
+		var mid Step
+		switch tp.Int(5) {
+		case 0, 1:
+			sc.StartAliased = true
+			mid = Step{Kind: StepEvolve, Damage: "alias"}
+		case 2:
+			mid = Step{Kind: StepEvolve, Damage: "shape"}
+		case 3:
+			mid = Step{Kind: StepDamage, Damage: damages[tp.Int(len(damages))]}
+		default:
+			mid = Step{Kind: StepRepeat}
+		}
+		sc.Steps = []Step{first, mid, again, {Kind: StepRepeat}}
+		return sc
+	}
 	n := 1 + tp.Int(5)
 	hadRun := false
 	broken := false
